@@ -25,6 +25,7 @@ import (
 //	   F    the next stream creation fails
 //	   R    Recv fails on the current stream
 //	   H    Send blocks from now on (changes pile up behind the sender)    L  Send is released
+//	   K    a stream is created and the Send of its resubscription snapshot blocks until L (changes made meanwhile wait)
 //	   -> per stream "<id>:" then its messages "+<subscribed names>-<unsubscribed names>" separated by ',' ; streams by '|' ;
 //	      then " up=<0|1>" ; or "blocked@<step>" (a caller did not return) / "stalled@<step>" (an expected message never came)
 //	c16.loop <n>       the real Run loop: n failing stream creations in a row are each followed by another attempt -> attempts>=<n>
@@ -34,6 +35,7 @@ func init() { props["C16"] = func() hx.Prop { return c16{} } }
 
 func (c16) Rule() string {
 	return "subscription histories of 1..40 steps over 1..24 service names: subscribe/unsubscribe calls interleaved with stream creation failures, Send failures at chosen positions, Recv failures, " +
+		"periods in which the Send of the resubscription snapshot blocks while callers change the set, " +
 		"and periods in which Send blocks so that changes pile up (including the same name changed back and forth, and more than 16 pending changes while no stream exists). " +
 		"Non-trivial = contains a failure, a blocked period or more than 16 pending changes; distinct by op line"
 }
@@ -169,6 +171,7 @@ func (c16) run(toks []string) string {
 	const wait = 2 * time.Second
 	dep := map[string]bool{}
 	up, hold, holdBusy := false, false, false
+	snapHold := false // token K: the Send of the resubscription snapshot is blocked
 	var cur *c16stream
 	touched := map[string]bool{} // names changed behind a blocked sender
 	fail := ""
@@ -278,6 +281,76 @@ func (c16) run(toks []string) string {
 			if broken {
 				goDown(step, downs)
 			}
+		case t == "K":
+			// a stream is created and the Send of its resubscription snapshot blocks (until L): what callers change meanwhile must
+			// not be lost when the snapshot has gone out
+			if up {
+				continue
+			}
+			h.mu.Lock()
+			downs := h.downs
+			nStreams := len(h.streams)
+			entries := h.entries
+			nonEmpty := false
+			for _, v := range dep {
+				if v {
+					nonEmpty = true
+				}
+			}
+			if nonEmpty {
+				h.holdCh = make(chan struct{})
+			}
+			h.mu.Unlock()
+			select {
+			case h.decisions <- "C":
+			case <-time.After(wait):
+				fail = fmt.Sprintf("stalled@%d", step)
+				continue
+			}
+			if !nonEmpty {
+				// nothing to resubscribe: the stream is simply up
+				ok := h.waitFor(wait, func() bool { return h.downs > downs || (len(h.streams) > nStreams && h.recvIn[h.streams[nStreams].id]) })
+				if !ok {
+					fail = fmt.Sprintf("stalled@%d", step)
+					continue
+				}
+				h.mu.Lock()
+				cur = h.streams[nStreams]
+				up = h.downs == downs
+				h.mu.Unlock()
+				continue
+			}
+			if !h.waitFor(wait, func() bool { return h.entries > entries }) {
+				fail = fmt.Sprintf("stalled@%d", step)
+				continue
+			}
+			h.mu.Lock()
+			cur = h.streams[nStreams]
+			h.mu.Unlock()
+			snapHold = true
+		case t == "L" && snapHold:
+			h.mu.Lock()
+			ch := h.holdCh
+			h.holdCh = nil
+			downs := h.downs
+			h.mu.Unlock()
+			snapHold = false
+			if ch != nil {
+				close(ch)
+			}
+			// the stream is up once Recv has been entered; then whatever piled up is sent and the sender is idle again
+			if !h.waitFor(wait, func() bool { return h.downs > downs || h.recvIn[cur.id] }) {
+				fail = fmt.Sprintf("stalled@%d", step)
+				continue
+			}
+			time.Sleep(20 * time.Millisecond)
+			if !h.waitFor(wait, func() bool { return h.entries == h.exits }) {
+				fail = fmt.Sprintf("stalled@%d", step)
+				continue
+			}
+			h.mu.Lock()
+			up = h.downs == downs
+			h.mu.Unlock()
 		case t == "F" || t[0] == 'C':
 			if t != "F" && t != "C" {
 				if _, err := strconv.Atoi(t[1:]); err != nil {
@@ -322,7 +395,7 @@ func (c16) run(toks []string) string {
 			up = h.downs == downs
 			h.mu.Unlock()
 		case t == "R":
-			if hold {
+			if hold || snapHold {
 				return "bad-op"
 			}
 			if up {
@@ -333,6 +406,9 @@ func (c16) run(toks []string) string {
 				goDown(step, downs)
 			}
 		case t == "H":
+			if snapHold {
+				return "bad-op"
+			}
 			if up && !hold {
 				hold, holdBusy = true, false
 				h.mu.Lock()
@@ -349,6 +425,9 @@ func (c16) run(toks []string) string {
 	}
 	if hold && fail == "" {
 		release(len(toks) + 1)
+	}
+	if snapHold {
+		return "bad-op" // the script must release the snapshot with L
 	}
 	// result
 	h.mu.Lock()
@@ -454,6 +533,23 @@ func (c c16) Gen(r *hx.Run) {
 		"C R s1 s2 s3 s4 s5 s6 s7 s8 s9 s10 s11 s12 s13 s14 s15 s16 s17 s18 s19 s20 u3 C",
 		"C s1 s2 R u1 u2 s1 s2 u1 u2 s1 s2 u1 u2 s1 s2 u1 u2 s1 s2 u1 u2 s3 C",
 		"C H s1 s2 s3 s4 s5 s6 s7 s8 s9 s10 s11 s12 s13 s14 s15 s16 s17 s18 s19 L",
+	}
+	// changes made while the resubscription snapshot is being sent
+	basic = append(basic, "s1 K s2 L", "s1 K u1 L", "s1 s2 K u1 s3 L", "s1 K u1 s1 L", "s1 K s2 u2 L u1", "s1 C R s2 K u1 u2 s3 L s4", "K s1 L", "s1 K L s2")
+	for i := 0; i < r.N(20, 400); i++ {
+		var tk []string
+		for j := 0; j < 1+rng.Intn(3); j++ {
+			tk = append(tk, fmt.Sprintf("s%d", 1+rng.Intn(4)))
+		}
+		tk = append(tk, "K")
+		for j := 0; j < rng.Intn(5); j++ {
+			tk = append(tk, fmt.Sprintf("%c%d", "su"[rng.Intn(2)], 1+rng.Intn(5)))
+		}
+		tk = append(tk, "L")
+		for j := 0; j < rng.Intn(3); j++ {
+			tk = append(tk, fmt.Sprintf("%c%d", "su"[rng.Intn(2)], 1+rng.Intn(5)))
+		}
+		basic = append(basic, strings.Join(tk, " "))
 	}
 	for _, b := range basic {
 		r.Do("c16.run "+b, true, "basic")
